@@ -271,6 +271,9 @@ class StreamReader:
             DeprecationWarning,
             stacklevel=2,
         )
+        self._unread_data(data)
+
+    def _unread_data(self, data: bytes) -> None:
         if not data:
             return
 
@@ -413,7 +416,12 @@ class StreamReader:
                 break
 
             if not_enough:
-                await self._wait("readuntil")
+                try:
+                    await self._wait("readuntil")
+                except BaseException:
+                    # Don't lose what was already taken out of the buffer.
+                    self._unread_data(chunk)
+                    raise
 
         if chunk and self._on_chunk_received is not None:
             await self._fire_chunk_received(chunk)
@@ -511,7 +519,12 @@ class StreamReader:
 
         blocks: list[bytes] = []
         while n > 0:
-            block = await self.read(n)
+            try:
+                block = await self.read(n)
+            except BaseException:
+                # Don't lose what was already taken out of the buffer.
+                self._unread_data(b"".join(blocks))
+                raise
             if not block:
                 partial = b"".join(blocks)
                 raise asyncio.IncompleteReadError(partial, len(partial) + n)
